@@ -57,3 +57,54 @@ Proof. vm_compute. repeat split; reflexivity. Qed.
 Example C02_old_extend_refuted :
   exists c os, c_old c = true /\ (4 <= c_RB c)%nat /\ NoDup (retired_of os) /\ ~ NoDup (snd (seq_run c 0 os (seq_init c))).
 Proof. exact dhp_old_extend_refuted. Qed.
+
+(** * The same theorem WITHOUT the free-list hypothesis (composition with C21's open-world FreeList proof)
+
+    [flbad (hist (Conc.trace conf)) = false] is now a theorem (LV.Proofs.DhpFlThm.dhp_flbad_false): on every reachable
+    trace of every DHP client program the two embedded cds::intrusive::FreeList instances (hp_allocator over the guard
+    blocks, retired_allocator over the retired blocks) hand out only blocks they hold.  Proof: the open-world FreeList
+    invariant (LV.Proofs.FreeListOpen...: the C21 state invariant with blocks moving in and out of the list's custody,
+    block creation, two instances in one state) is kept by every DHP thread as long as the DHP side only gives back
+    blocks it owns; the DHP block-ownership invariants (JA for guard blocks; JO /\ JK /\ JR, the pointer-free part of
+    the C03 invariant, for retired blocks: LV.Proofs.DhpFlBInv) and a knowledge invariant (only announced and
+    initialised blocks are named by shared pointers; LV.Proofs.DhpFlX) are kept as long as the free lists behave; the two
+    are tied together event by event (LV.Proofs.DhpFlKnot).
+    Remaining side conditions, none about the free lists and none about the client program: the current code's
+    configuration ([c_old], [c_oldtail] select the behaviour of before commits 1cc4b4f / cf24f31 and exist for
+    regression witnesses only), retired-block capacity >= 4 (256 in /repo), and fewer than 2^31 - 3 threads (the 31-bit
+    reference count of a free-list node: C21's bound). *)
+From LV Require Import Proofs.DhpFlThm.
+
+Theorem C02_dhp_flbad_false :
+  forall (fuel : nat) (c : Dhp.cfg) (ths : list (list Dhp.op)) conf,
+    (4 <= c_RB c)%nat -> c_old c = false -> c_oldtail c = false ->
+    Z.of_nat (List.length ths) + 3 < 2147483648 ->
+    Conc.reach (Dhp.init_cfg fuel c ths) conf ->
+    flbad (hist (Conc.trace conf)) = false.
+Proof. exact dhp_flbad_false. Qed.
+Print Assumptions C02_dhp_flbad_false.
+
+Theorem C02_dhp_no_dispose_while_guarded_unconditional :
+  forall (fuel : nat) (c : Dhp.cfg) (ths : list (list Dhp.op)) conf,
+    (4 <= c_RB c)%nat -> c_old c = false -> c_oldtail c = false ->
+    Z.of_nat (List.length ths) + 3 < 2147483648 ->
+    Conc.reach (Dhp.init_cfg fuel c ths) conf ->
+    no_dispose_while_guarded c (Conc.trace conf).
+Proof. exact dhp_no_dispose_while_guarded_unconditional. Qed.
+Print Assumptions C02_dhp_no_dispose_while_guarded_unconditional.
+
+(** non-vacuity: the hypotheses hold of a concrete reachable configuration of the two-thread program of
+    [C02_nonvacuous] (extension blocks, a guarded object survives a scan), in which the disposer is called *)
+Example C02_unconditional_nonvacuous :
+  let c := Dhp.mkCfg 4 2 4 false 200 1 false in
+  let ths := map Dhp.decode_ops
+               [[[1]; [12;0;1;5]; [8;0;1]; [15;0;2]; [6;4]; [8;0;3]];
+                [[1]; [15;0;1]; [9;5]; [9;6]; [10]; [8;0;2]; [15;0;3]; [10]]] in
+  let conf := fst (Conc.run 5000 0 [] (Dhp.init_cfg 5000 c ths)) in
+  (4 <= c_RB c)%nat /\ c_old c = false /\ c_oldtail c = false /\ Z.of_nat (List.length ths) + 3 < 2147483648 /\
+  Conc.reach (Dhp.init_cfg 5000 c ths) conf /\
+  map snd (filter (fun e => is_cli "dispose" (snd e)) (Conc.trace conf)) = [EvCli "dispose" [6]; EvCli "dispose" [5]].
+Proof.
+  cbv zeta. split; [vm_compute; lia|]. split; [reflexivity|]. split; [reflexivity|]. split; [vm_compute; reflexivity|].
+  split; [apply Conc.run_reach|]. vm_compute; reflexivity.
+Qed.
